@@ -166,7 +166,7 @@ def library_call(ctx, rng, pool, case):
                     res = Calculator().fire(shot, rng_, extra_data=True)
                     res.danger_space(rng_, rng_)
                     touched.append((s2, "distance"))
-                except pb.RangeError:
+                except (pb.RangeError, ArithmeticError):
                     pass
     except (ZeroDivisionError, ValueError, TypeError, OverflowError) as exc:
         ctx.count("library_calls_raised_" + type(exc).__name__)
@@ -304,7 +304,7 @@ def run_history(ctx, seed_case):
 
 
 def run(ctx):
-    total = 140 if ctx.tier == "quick" else 14000
+    total = 1400 if ctx.tier == "quick" else 60000
     for i in range(ctx.share(total)):
         if not ctx.time_left():
             break
